@@ -81,9 +81,9 @@ theorem complete_piece_untouched (act : Swarm.Action) (hact : SepSwarmAction crc
   refine ⟨?_, complete_piece_bytes hg i hc⟩
   have hmono : p'.tor.pieces[i]? = some PStatus.complete := by
     have key := peer_tor_step crc _ act a p p' hp hp'
-    rcases key with h | ⟨ta, h⟩
+    rcases key with h | ⟨ta, hnr, h⟩
     · rw [h]; exact hc
-    · rw [h]; exact complete_mono hg ta i hc
+    · rw [h]; exact complete_mono hg ta hnr i hc
   exact complete_piece_bytes hg' i hmono
 
 /-- **C19 (4)** A WritePiece call (a delivery) at any peer that returned `ok` carried exactly the
